@@ -310,3 +310,222 @@ class ItemBValidate:
         if case["form"] == "list2":
             return len(result) == 2 and result[0] == value[0] and result[1] == value[1]
         return result == value
+
+
+# =============================================================================================== BOOLEAN items
+def decode_pre(cls, data, k):
+    """data starts with a header of format cls, k length bytes, and the announced payload is present"""
+    fc = cls._hsms_type
+    if not (1 + k <= len(data) and data[0] == fc * 4 + k):
+        return False
+    return 1 + k + e5.uint_at(data, 1, k) <= len(data)
+
+
+def payload_samples(rnd, cls, k, payloads):
+    for p in payloads:
+        tail = bytes(rnd.getrandbits(8) for _ in range(rnd.choice((0, 3))))
+        if len(p) < 256 ** k:
+            yield {"cls": cls, "data": bytes([cls._hsms_type * 4 + k]) + len(p).to_bytes(k, "big") + p + tail}
+
+
+@contract("secsgem.secs.item_boolean:ItemBOOLEAN._validate_list_value", "C14")
+class ItemBoolValidateList:
+    """a list of bools (what decode builds, what an application passes) is stored unchanged"""
+
+    cases = None
+
+    def inputs():
+        return {"self": Obj(IBO.ItemBOOLEAN), "value": ListOf(Bool)}
+
+    def raises():
+        return {}
+
+    def ensures(self, value, result):
+        return len(result) == len(value) and forall(0, len(value), lambda j: result[j] == value[j])
+
+    def inv_1(self, values, value, i):
+        return len(values) == i and forall(0, i, lambda j: values[j] == value[j])
+
+    loops = {1: Loop(a=inv_1, types={"values": ListOf(Bool)})}
+    returns = ListOf(Bool)
+
+
+@contract("secsgem.secs.item_boolean:ItemBOOLEAN.validate_value", "C14")
+class ItemBoolValidate:
+    """list form: through _validate_list_value; scalar bool: a one-element list"""
+
+    cases = [("list", {"form": "list"}), ("scalar", {"form": "scalar"})]
+    uses = [ItemBoolValidateList]
+
+    def inputs(form):
+        return {"self": Obj(IBO.ItemBOOLEAN), "value": ListOf(Bool) if form == "list" else Bool}
+
+    def raises():
+        return {}
+
+    def ensures(self, value, result, case):
+        if case["form"] == "list":
+            return len(result) == len(value) and forall(0, len(value), lambda j: result[j] == value[j])
+        return len(result) == 1 and result[0] == value
+
+    def returns(form=None):
+        return ListOf(Bool)
+
+
+@contract("secsgem.secs.item_boolean:ItemBOOLEAN.encode", "C14")
+class ItemBoolEncode:
+    """canonical header ++ one byte per element: 0x01 for true, 0x00 for false"""
+
+    cases = None
+
+    def inputs():
+        return {"self": Obj(IBO.ItemBOOLEAN, _value=ListOf(Bool))}
+
+    def raises(self):
+        return {ValueError: len(self._value) > 0xFFFFFF}
+
+    def ensures(self, result):
+        n = len(self._value)
+        hl = e5.hlen(n)
+        return (len(result) == hl + n and seq_eq_at(result, 0, e5.header_min(0o11, n))
+                and forall(0, n, lambda j: result[hl + j] == ite(self._value[j], 1, 0)))
+
+    def inv_1(self, result, i):
+        n = len(self._value)
+        hl = e5.hlen(n)
+        return (len(result) == hl + i and seq_eq_at(result, 0, e5.header_min(0o11, n))
+                and forall(0, i, lambda j: result[hl + j] == ite(self._value[j], 1, 0)))
+
+    loops = {1: Loop(a=inv_1)}
+
+
+@contract("secsgem.secs.item_boolean:ItemBOOLEAN.decode", "C14")
+class ItemBoolDecode:
+    """every payload byte other than 0x00 denotes true (E5), for any k"""
+
+    cases = [(f"k{k}", {"k": k}) for k in (1, 2, 3)]
+    uses = [(ItemBoolValidate, lambda case: {"form": "list"})]
+
+    def inputs(k):
+        return {"cls": Const(IBO.ItemBOOLEAN), "data": Bytes(min_len=1)}
+
+    def requires(cls, data, case):
+        return decode_pre(cls, data, case["k"])
+
+    def raises():
+        return {}
+
+    def samples(rnd, k):
+        pls = [b"", b"\x00", b"\x01", b"\x02\xff\x00\x01\x80"] + [bytes(rnd.choice((0, 1, 2, 255, rnd.getrandbits(8))) for _ in range(rnd.randint(0, 6))) for _ in range(10)]
+        return payload_samples(rnd, IBO.ItemBOOLEAN, k, pls)
+
+    def ensures(cls, data, result, case):
+        k = case["k"]
+        n = e5.uint_at(data, 1, k)
+        return (type(result) is cls and len(result._value) == n
+                and forall(0, n, lambda j: result._value[j] == (data[1 + k + j] != 0)))
+
+
+# =============================================================================================== B items
+@contract("secsgem.secs.item_b:ItemB.encode", "C14")
+class ItemBEncode:
+    """canonical header ++ the bytes"""
+
+    cases = None
+
+    def inputs():
+        return {"self": Obj(IB.ItemB, _value=Bytes())}
+
+    def raises(self):
+        return {ValueError: len(self._value) > 0xFFFFFF}
+
+    def ensures(self, result):
+        n = len(self._value)
+        hl = e5.hlen(n)
+        return (len(result) == hl + n and seq_eq_at(result, 0, e5.header_min(0o10, n))
+                and forall(0, n, lambda j: result[hl + j] == self._value[j]))
+
+
+@contract("secsgem.secs.item_b:ItemB.decode", "C14")
+class ItemBDecode:
+    """exactly the payload bytes, for any k"""
+
+    cases = [(f"k{k}", {"k": k}) for k in (1, 2, 3)]
+
+    def inputs(k):
+        return {"cls": Const(IB.ItemB), "data": Bytes(min_len=1)}
+
+    def requires(cls, data, case):
+        return decode_pre(cls, data, case["k"])
+
+    def raises():
+        return {}
+
+    def samples(rnd, k):
+        pls = [b"", b"\x00", bytes(range(256))] + [bytes(rnd.getrandbits(8) for _ in range(rnd.randint(0, 9))) for _ in range(8)]
+        return payload_samples(rnd, IB.ItemB, k, pls)
+
+    def ensures(cls, data, result, case):
+        k = case["k"]
+        n = e5.uint_at(data, 1, k)
+        return (type(result) is cls and len(result._value) == n
+                and forall(0, n, lambda j: result._value[j] == data[1 + k + j]))
+
+
+# =============================================================================================== A / J items
+import secsgem.common.codec_jis_x_0201 as _JIS  # noqa: E402  (registers the jis_8 codec the Item API uses)
+TEXT_ITEMS = [IS.ItemA, IS.ItemJ]
+
+
+def item_codec_tables():
+    return {"jis-8": {"encode": dict(_JIS.jis8_encoding_map), "decode": dict(_JIS.jis8_decoding_map)}}
+
+
+@contract("secsgem.secs.item_str:ItemStr.encode", "C14")
+class ItemStrEncode:
+    """canonical header ++ one code unit per character; UnicodeEncodeError exactly when a character has no code unit"""
+
+    cases = [(c.__name__, {"cls": c}) for c in TEXT_ITEMS]
+    codec_tables = staticmethod(item_codec_tables)
+
+    def inputs(cls):
+        return {"self": Obj(cls, _value=Str())}
+
+    def raises(self):
+        bad = exists(0, len(self._value), lambda j: not e5.text_encodable(self._hsms_type, ord(self._value[j])))
+        return {UnicodeEncodeError: bad and len(self._value) <= 0xFFFFFF, ValueError: len(self._value) > 0xFFFFFF}
+
+    def ensures(self, result):
+        fc = self._hsms_type
+        n = len(self._value)
+        hl = e5.hlen(n)
+        return (len(result) == hl + n and seq_eq_at(result, 0, e5.header_min(fc, n))
+                and forall(0, n, lambda j: result[hl + j] == e5.text_byte(fc, ord(self._value[j]))))
+
+
+@contract("secsgem.secs.item_str:ItemStr.decode", "C14")
+class ItemStrDecode:
+    """exactly the characters the payload code units denote, for any k"""
+
+    cases = [(f"{c.__name__}-k{k}", {"cls": c, "k": k}) for c in TEXT_ITEMS for k in (1, 2, 3)]
+    codec_tables = staticmethod(item_codec_tables)
+
+    def inputs(cls, k):
+        return {"cls": Const(cls), "data": Bytes(min_len=1)}
+
+    def requires(cls, data, case):
+        return decode_pre(cls, data, case["k"])
+
+    def raises():
+        return {}
+
+    def samples(rnd, cls, k):
+        pls = [b"", b"A", bytes(range(256)), b"\x5c\x7e\xa1\xdf\xff\x00"] + [bytes(rnd.getrandbits(8) for _ in range(rnd.randint(0, 9))) for _ in range(8)]
+        return payload_samples(rnd, cls, k, pls)
+
+    def ensures(cls, data, result, case):
+        k = case["k"]
+        fc = cls._hsms_type
+        n = e5.uint_at(data, 1, k)
+        return (type(result) is cls and len(result._value) == n
+                and forall(0, n, lambda j: ord(result._value[j]) == e5.text_char(fc, data[1 + k + j])))
